@@ -272,6 +272,18 @@ def render(e, partial=None):
     partial path (shape source)."""
     k = e[0]
     r = lambda x: render(x, partial)
+
+    def src(x):
+        # source of a path step.  In the exploration stream a root INSIDE an expression that is the
+        # source of a further step stays detached: the compiler keeps it inside that expression's
+        # scope (the expression is the path's set), toy_eval_model would bind it at statement level
+        if LIBERAL[0] and x[0] not in ('var', 'root', 'ptr', 'back', 'proj'):
+            LIBERAL[0] = False
+            try:
+                return render(x, partial)
+            finally:
+                LIBERAL[0] = True
+        return render(x, partial)
     if k == 'lit':
         vs = [render_val(v) for v in e[1:]]
         return vs[0] if len(vs) == 1 else '{' + ', '.join(vs) + '}'
@@ -288,17 +300,17 @@ def render(e, partial=None):
     if k == 'ptr':
         if e[1][0] == 'var' and partial is not None and str(e[1][1]) == str(partial):
             return f'.p{e[2]}'
-        return f'{r(e[1])}.p{e[2]}'
+        return f'{src(e[1])}.p{e[2]}'
     if k == 'back':
         if e[1][0] == 'var' and partial is not None and str(e[1][1]) == str(partial):
             return f'.<p{e[2]}[is T{e[3]}]'
-        return f'{r(e[1])}.<p{e[2]}[is T{e[3]}]'
+        return f'{src(e[1])}.<p{e[2]}[is T{e[3]}]'
     if k == 'tup':
         return f'({r(e[1])}, {r(e[2])})'
     if k == 'arr':
         return f'[{r(e[1])}, {r(e[2])}]'
     if k == 'proj':
-        return f'({r(e[1])}).{e[2]}'
+        return f'({src(e[1])}).{e[2]}'
     if k == 'call':
         kind, sym = PRIMS[e[1]][2]
         args = [r(a) for a in e[2:]]
